@@ -237,3 +237,10 @@ func VH_C09_principal_subclient_runs_its_own_muxer_on_its_own_connection() {
 	verifAssert(c09Sub.muxerConn == transport.MsgConn(c09Sub.dialled), "C09: the sub-client's muxer runs on the sub-client's own connection, never on the principal's session")
 	verifAssert(c09Sub.role == "client", "C09: the sub-client's muxer has the client role")
 }
+
+//verif:prop C04
+//verif:bounds as VH_C01_client_always_requests_the_configured_server_name (the requested name and its TYPE are what the leaf is matched against)
+//verif:cover built
+func VH_C04_client_requests_the_configured_name_with_its_own_type() {
+	VH_C01_client_always_requests_the_configured_server_name()
+}
